@@ -416,6 +416,96 @@ rc::Gen<Case> genBreak() {
   });
 }
 
+
+// ---------------------------------------------------------------- fold mode (C06)
+// one container argument; the same element sequence cut in several ways; every cut must give the model's
+// fold (or be rejected like the model), and all cuts must agree with each other.
+std::string runFold(const Case &c) {
+  auto &st = stats();
+  if (c.discarded) { st.cls("discarded." + c.discardWhy); return ""; }
+  classifyConfig(c.cfg);
+  const ArgDef &a = c.cfg.args[0];
+  const int kind = slotKinds()[a.slot];
+  int verdict0 = -1;
+  std::map<int, Val> state0;
+  size_t maxUses = 0, freeWords = 0, elems = 0;
+  for (size_t vi = 0; vi < c.vars.size(); ++vi) {
+    const Variant &v = c.vars[vi];
+    ModelResult m = evalModel(c.cfg, v.line);
+    if (m.verdict == ModelResult::UNDEFINED) { st.cls("invalid_case.model_undefined"); return ""; }
+    RealResult r = runReal(c.cfg, v.in);
+    std::string where = "cut " + std::to_string(vi) + " argv " + argvText(v.in.argv) + ": ";
+    if (r.setupThrew) return where + "library refused the configuration: " + r.what;
+    if (m.verdict == ModelResult::REJECT) {
+      if (!r.threw) return where + "the fold must be refused (" + m.reason + ") but evaluation succeeded";
+      st.cls("fold.refused." + m.reason.substr(0, m.reason.find('(')));
+    } else {
+      if (r.threw) return where + "values were rejected: " + r.what;
+      std::string d = compareStates(c.cfg, m.state, r.state);
+      if (!d.empty()) return where + d;
+    }
+    if (verdict0 < 0) { verdict0 = m.verdict; state0 = r.state; }
+    else {
+      if (verdict0 != m.verdict) return where + "model verdict depends on the cut (generator bug)";
+      if (m.verdict == ModelResult::ACCEPT) {
+        std::string d = compareStates(c.cfg, state0, r.state);
+        if (!d.empty()) return where + "two cuts of the same value sequence give different containers: " + d;
+      }
+    }
+    maxUses = std::max(maxUses, v.line.size());
+    size_t e = 0;
+    for (auto &u : v.line) { freeWords += u.free.size(); e += u.elems.size(); for (auto &f : u.free) e += f.size(); }
+    elems = std::max(elems, e);
+  }
+  st.cls(std::string("fold.kind.") + kindName(kind));
+  if (freeWords) st.cls("fold.free_values");
+  if (maxUses >= 2) st.cls("fold.repeated_use");
+  bool option = a.clearFirst || a.sort || a.unique || a.listSep || a.format || !a.checks.empty();
+  if ((maxUses >= 2 || freeWords) && elems >= 3 && option) st.markNontrivial();
+  return "";
+}
+
+rc::Gen<Case> genFold() {
+  return rc::gen::exec([]() {
+    Case c;
+    Profile pf;
+    pf.onlyKind = *range<int>(K_VEC_INT, K_KINDS - 1);
+    pf.minArgs = pf.maxArgs = 1;
+    pf.checks = pick(30); pf.formats = pick(50); pf.cardinality = pick(25);
+    c.cfg = genConfig(pf);
+    if (c.cfg.args.empty()) { c.discarded = true; c.discardWhy = "no_args"; return c; }
+    c.cfg.flags &= (F_NO_ABBR | F_END_VALUES);
+    ArgDef &a = c.cfg.args[0];
+    const int kind = slotKinds()[a.slot];
+    const Val &iv = c.cfg.initial[a.slot];
+    // the value sequence: generated elements, duplicates, elements equal to initial content, out-of-range positions
+    int n = *range<int>(0, 12);
+    if (kind == K_TUPLE_ISI) n = *rc::gen::weightedOneOf<int>({{6, just<int>(3)}, {1, range<int>(1, 5)}});
+    if (isFixed(kind) && kind != K_TUPLE_ISI) n = *range<int>(0, 5);
+    std::vector<std::string> all = genElems(a, kind, n, n, -1);
+    for (size_t i = 0; i < all.size(); ++i) {
+      if (kind == K_TUPLE_ISI) continue;
+      if (i > 0 && pick(15)) all[i] = all[*range<size_t>(0, i - 1)];
+      else if (!iv.elems.empty() && !isKeyValue(kind) && !isBits(kind) && pick(12)) all[i] = oneOf(iv.elems);
+      else if (isBits(kind) && pick(8)) all[i] = std::to_string(*range<int>(8, 14));
+    }
+    if (all.empty()) { c.discarded = true; c.discardWhy = "empty_sequence"; return c; }
+    int cuts = static_cast<int>(opt("cuts", 3));
+    for (int k = 0; k < cuts; ++k) {
+      Variant v;
+      if (k == 0) { Use u; u.arg = 0; u.hasValue = true; u.elems = all; v.line.push_back(u); }   // everything in one list
+      else v.line = cutIntoUses(a, 0, all, true);
+      v.in.argv = {"prog"};
+      SpellOptions so;
+      so.doubledSepPercent = 20;
+      for (auto &w : spell(c.cfg, v.line, so)) v.in.argv.push_back(w);
+      v.note = "cut";
+      c.vars.push_back(v);
+    }
+    return c;
+  });
+}
+
 // non-trivial rule for the valid modes is evaluated from the case content
 void markValidNontrivial(const Case &c, const std::string &mode) {
   if (c.discarded || c.vars.empty()) return;
@@ -460,6 +550,8 @@ struct Init {
       m.run = [mode](const Case &c) { std::string r = runValid(c); if (r.empty()) markValidNontrivial(c, mode); return r; };
       m.show = showCase; m.parse = parseCase;
     }
+    auto &f = addMode<Case>("fold");
+    f.gen = genFold; f.run = runFold; f.show = showCase; f.parse = parseCase;
     auto &b = addMode<Case>("break");
     b.gen = genBreak; b.run = runBreak; b.show = showCase; b.parse = parseCase;
   }
